@@ -100,6 +100,25 @@ class EnumVal:
         return "%s::%s" % (self.name, self.variant)
 
 
+class ResV:
+    """Result<T, E>: discriminant 0 = Ok, 1 = Err; field 0 is the payload"""
+
+    def __init__(self, ok, v):
+        self.ok = ok
+        self.fields = [v]
+
+    def __repr__(self):
+        return ("Ok(%r)" if self.ok else "Err(%r)") % (self.fields[0],)
+
+
+class CFV:
+    """ControlFlow<B, C>: discriminant 0 = Continue, 1 = Break"""
+
+    def __init__(self, brk, v):
+        self.brk = brk
+        self.fields = [v]
+
+
 class Unit:
     def __repr__(self):
         return "()"
@@ -159,6 +178,10 @@ def clone_value(v):
         return VecV([clone_value(x) for x in v.fields])
     if isinstance(v, Opt):
         return Opt(clone_value(v.fields[0]), v.some)
+    if isinstance(v, ResV):
+        return ResV(v.ok, clone_value(v.fields[0]))
+    if isinstance(v, CFV):
+        return CFV(v.brk, clone_value(v.fields[0]))
     if isinstance(v, IterBase):
         return v.clone()
     return v
@@ -300,6 +323,8 @@ def remaining_len(itr):
         return len(itr.items) - itr.lo
     if isinstance(itr, ListIter):
         return len(itr.items) - itr.lo - itr.back
+    if isinstance(itr, RangeIter):
+        return max(itr.hi - itr.lo, 0)
     if isinstance(itr, (EnumerateIter, MapIter, ClonedIter, RevIter)):
         return remaining_len(itr.inner)
     if isinstance(itr, SkipIter):
@@ -404,9 +429,33 @@ class EnumerateIter(IterBase):
         return c
 
 
+class RangeIter(IterBase):
+    """a..b / a..=b over concrete usize"""
+
+    def __init__(self, lo, hi):
+        self.lo, self.hi = lo, hi  # half-open
+
+    def next(self, it):
+        if self.lo >= self.hi:
+            return None
+        v = self.lo
+        self.lo += 1
+        return v
+
+    def next_back(self, it):
+        if self.lo >= self.hi:
+            return None
+        self.hi -= 1
+        return self.hi
+
+
 def into_iter(v):
     if isinstance(v, IterBase):
         return v
+    if isinstance(v, Struct) and v.name == "Range" and all(isinstance(x, int) for x in v.fields):
+        return RangeIter(v.fields[0], v.fields[1])
+    if isinstance(v, Struct) and v.name == "RangeInclusive" and all(isinstance(x, int) for x in v.fields[:2]):
+        return RangeIter(v.fields[0], v.fields[1] + 1)
     if isinstance(v, (VecV, Array)):
         return VecIntoIter(v.fields)
     if isinstance(v, (SliceRef,)):
@@ -955,6 +1004,8 @@ class Interp:
                     base = strip_path(full)
                 if "Option" in full and full.rstrip().endswith("None"):
                     return Opt(None, False)
+                if "Result" in full and base in ("Ok", "Err") and len(ops) == 1:
+                    return ResV(base == "Ok", ops[0])
                 if base in ("Less", "Equal", "Greater") and not ops and ("Ordering" in full or "::" not in full.strip()):
                     return EnumVal("Ordering", base, {"Less": -1, "Equal": 0, "Greater": 1}[base])
                 if "Option" in full and base == "Some":
@@ -986,6 +1037,10 @@ class Interp:
                 return 1 if v.some else 0
             if isinstance(v, EnumVal):
                 return v.disc
+            if isinstance(v, ResV):
+                return 0 if v.ok else 1
+            if isinstance(v, CFV):
+                return 1 if v.brk else 0
             raise Unsupported("discriminant of %r" % (v,))
         if isinstance(rv, mp.Repeat):
             v = self.eval_operand(f, frame, rv.op)
@@ -1018,6 +1073,24 @@ class Interp:
                 return a - b
             if op in ("Mul", "MulUnchecked"):
                 return a * b
+            if op == "Div":
+                if b == 0:
+                    raise Panic("attempt to divide by zero")
+                return int(a / b) if (a < 0) != (b < 0) and a % b else a // b
+            if op == "Rem":
+                if b == 0:
+                    raise Panic("attempt to calculate the remainder with a divisor of zero")
+                return a - b * (int(a / b) if (a < 0) != (b < 0) and a % b else a // b)
+            if op == "Shl":
+                return a << b
+            if op == "Shr":
+                return a >> b
+            if op == "BitAnd":
+                return a & b
+            if op == "BitOr":
+                return a | b
+            if op == "BitXor":
+                return a ^ b
             if op in ("Lt", "Le", "Gt", "Ge", "Eq", "Ne"):
                 return {"Lt": a < b, "Le": a <= b, "Gt": a > b, "Ge": a >= b, "Eq": a == b, "Ne": a != b}[op]
             if op == "AddWithOverflow":
